@@ -505,6 +505,34 @@ pub fn run(tier: Tier) -> i32 {
         }
     });
     rep.absorb("sequence", st);
+    // (fifth review round) a malformed expression fails the transform in whichever attribute it is written
+    let bad_exprs = ["1+", "(1", "foo(1)", "sin(1,2)", "$nope"];
+    let carriers: Vec<(&str, &str)> = vec![
+        ("id", r#"<svg><rect id="r{{@}}" wh="5"/></svg>"#),
+        ("id-on-group", r#"<svg><g id="g{{@}}"><rect wh="5"/></g></svg>"#),
+        ("id-on-reuse", r##"<svg><specs><rect id="t" wh="5"/></specs><reuse id="i{{@}}" href="#t"/></svg>"##),
+        ("x", r#"<svg><rect x="{{@}}" wh="5"/></svg>"#),
+        ("text", r#"<svg><rect wh="5" text="{{@}}"/></svg>"#),
+        ("style", r#"<svg><rect wh="5" style="stroke-width:{{@}}"/></svg>"#),
+        ("var", r#"<svg><var v="{{@}}"/><rect wh="5"/></svg>"#),
+        ("group-attribute", r#"<svg><g k="{{@}}"><rect wh="5"/></g></svg>"#),
+        ("if-test", r#"<svg><if test="{{@}}"><rect wh="5"/></if></svg>"#),
+        ("loop-count", r#"<svg><loop count="{{@}}"><rect wh="5"/></loop></svg>"#),
+    ];
+    let st = run_space(bad_exprs.len() * carriers.len(), |i| {
+        let (expr, (cname, tpl)) = (bad_exprs[i % bad_exprs.len()], carriers[i / bad_exprs.len()]);
+        let doc = tpl.replace('@', expr);
+        let out = run_str(&doc, &Cfg::plain());
+        let bad = matches!(out, Outcome::Ok(_) | Outcome::Panic(_));
+        CaseResult {
+            case_hash: hash64(&doc),
+            nontrivial: !bad,
+            outcome_hash: hash64(&format!("{out:?}")),
+            executions: 1,
+            violation: bad.then(|| Violation { clause: "malformed-expression-accepted".into(), signature: format!("C14/carriers/malformed-accepted/{cname}"), case: json!({"leg": "carriers", "input": doc}), detail: format!("{doc}\n{}", clip(&out.brief(), 300)) }),
+        }
+    });
+    rep.absorb("carriers", st);
     rep.assume("variables hold plain numbers (substitution is textual by documentation); exponent literals, chained comparisons, empty parentheses and lists inside arithmetic are unspecified by the statement and only executed, never judged");
     rep.assume("documents of the contexts leg contain no forward references");
     rep.finish()
